@@ -51,6 +51,11 @@ func cfgCases() []cfgCase {
 		for _, v := range []string{"helper-for-a", "helper-fails", "helper-other-server-url"} {
 			out = append(out, cfgCase{"cred-helper", v, h})
 		}
+		// two configuration sources that disagree about one registry (a rotated secret updated in one
+		// place only): the later one wins, the replaced secret goes nowhere, neither is logged
+		for _, v := range []string{"file-then-hosts-password", "listed-twice-password", "listed-twice-token", "listed-twice-user"} {
+			out = append(out, cfgCase{"merge", v, h})
+		}
 	}
 	return out
 }
@@ -131,6 +136,28 @@ func runCfg(t *testing.T, c *explore.Ctx, cc cfgCase, scratch string) (*world, e
 		// the transport is plain http in this harness: the entries loaded from the file are completed
 		// by host entries that only say so
 		opts = append(opts, regclient.WithDockerCredsFile(fn), regclient.WithConfigHost(plain(hA), plain(hB)))
+	case "merge":
+		stale := withCred(hA)
+		switch cc.Variant {
+		case "file-then-hosts-password":
+			b, _ := json.Marshal(map[string]any{"auths": map[string]map[string]string{hA: {"auth": b64(creds[hA][0], strays[0][1])}}})
+			fn := filepath.Join(dir, "config.json")
+			if err := os.WriteFile(fn, b, 0o600); err != nil {
+				return w, err, ""
+			}
+			opts = append(opts, regclient.WithDockerCredsFile(fn), regclient.WithConfigHost(withCred(hA), withCred(hB)))
+		case "listed-twice-password":
+			stale.Pass = strays[0][1]
+			opts = append(opts, regclient.WithConfigHost(stale, withCred(hA), withCred(hB)))
+		case "listed-twice-token":
+			stale.Token = strays[0][2]
+			cur := withCred(hA)
+			cur.Token = creds[hA][2]
+			opts = append(opts, regclient.WithConfigHost(stale, cur, withCred(hB)))
+		case "listed-twice-user":
+			stale.User, stale.Pass = strays[0][0], strays[0][1]
+			opts = append(opts, regclient.WithConfigHost(stale, withCred(hA), withCred(hB)))
+		}
 	case "cred-helper":
 		bin := filepath.Join(dir, "bin")
 		os.MkdirAll(bin, 0o755)
@@ -168,7 +195,7 @@ func runCfg(t *testing.T, c *explore.Ctx, cc cfgCase, scratch string) (*world, e
 func TestVerifC11Config(t *testing.T) {
 	rec := ev.New()
 	defer rec.Flush(t)
-	rec.Rule("configuration routes: credentials supplied as a host list (with an entry that has no name and carries user/password, an identity token, both, or the host name of a reachable registry), as a Docker configuration file (auths keyed by host names, by URLs, with an identity token, with an entry for a host that is never used, with a Docker Hub entry) or through a credential helper program (answers, fails, answers for another server URL) x text / JSON log handler at trace level; per case every sequence of at most k challenge deviations as in the flow step (k=1 quick, 2 thorough). Oracle: the flow oracle of the other step (every secret only at its own host), secrets of dropped or unused entries are sent nowhere, no secret in the log. distinct_nontrivial = distinct (case, deviations, requests seen)")
+	rec.Rule("configuration routes: credentials supplied as a host list (with an entry that has no name and carries user/password, an identity token, both, or the host name of a reachable registry), as a Docker configuration file (auths keyed by host names, by URLs, with an identity token, with an entry for a host that is never used, with a Docker Hub entry) or through a credential helper program (answers, fails, answers for another server URL), or by two sources that disagree about one registry (a Docker file then a host entry with another password; one host listed twice with another password / identity token / user) x text / JSON log handler at trace level; per case every sequence of at most k challenge deviations as in the flow step (k=1 quick, 2 thorough). Oracle: the flow oracle of the other step (every secret only at its own host), secrets of dropped or unused entries are sent nowhere, no secret in the log. distinct_nontrivial = distinct (case, deviations, requests seen)")
 	rec.Assume("the credential helper is a shell script written by the harness; plain http transport")
 	if rd := rec.ReplayData(); rd != nil {
 		var rp struct {
